@@ -30,6 +30,10 @@ func (s *Server) handlePropagatedRequest(m *nats.Msg) {
 		s.logger.Warnf("Invalid propagated request: %v", err)
 		return
 	}
+	if !hasOperationBody(req) {
+		s.logger.Warnf("Invalid propagated request: missing body for operation %s", req.Op)
+		return
+	}
 	switch req.Op {
 	case proto.Op_CREATE_STREAM:
 		resp = s.handleCreateStream(req)
@@ -64,6 +68,37 @@ func (s *Server) handlePropagatedRequest(m *nats.Msg) {
 	if err := m.Respond(data); err != nil {
 		s.logger.Errorf("Failed to respond to propagated request: %v", err)
 	}
+}
+
+// hasOperationBody indicates if the request carries the body of the operation
+// it names. The body is optional on the wire but the handlers rely on it.
+func hasOperationBody(req *proto.PropagatedRequest) bool {
+	switch req.Op {
+	case proto.Op_CREATE_STREAM:
+		return req.CreateStreamOp != nil
+	case proto.Op_SHRINK_ISR:
+		return req.ShrinkISROp != nil
+	case proto.Op_EXPAND_ISR:
+		return req.ExpandISROp != nil
+	case proto.Op_REPORT_LEADER:
+		return req.ReportLeaderOp != nil
+	case proto.Op_DELETE_STREAM:
+		return req.DeleteStreamOp != nil
+	case proto.Op_PAUSE_STREAM:
+		return req.PauseStreamOp != nil
+	case proto.Op_RESUME_STREAM:
+		return req.ResumeStreamOp != nil
+	case proto.Op_SET_STREAM_READONLY:
+		return req.SetStreamReadonlyOp != nil
+	case proto.Op_JOIN_CONSUMER_GROUP:
+		return req.JoinConsumerGroupOp != nil
+	case proto.Op_LEAVE_CONSUMER_GROUP:
+		return req.LeaveConsumerGroupOp != nil
+	case proto.Op_REPORT_CONSUMER_GROUP_COORDINATOR:
+		return req.ReportConsumerGroupCoordinatorOp != nil
+	}
+	// Unknown operations are rejected by the caller.
+	return true
 }
 
 func (s *Server) handleCreateStream(req *proto.PropagatedRequest) *proto.PropagatedResponse {
